@@ -5,6 +5,7 @@ mod connmc;
 mod connref;
 mod conntrace;
 mod cuts;
+mod listen;
 mod malformed;
 mod pool;
 mod poolobs;
@@ -24,6 +25,7 @@ fn main() {
         "conn" => connmc::run(rest),
         "cuts" => cuts::run(rest),
         "poolobs" => poolobs::run(rest),
+        "listen" => listen::run(rest),
         "pool" => pool::run(rest),
         "pooltrace" => pool::run_trace(rest),
         "malformed" => malformed::run(rest),
